@@ -114,6 +114,52 @@ def layout_text(rng, bs, bad=False):
     return [ord(c) for c in t]
 
 
+def big_files(out, rng):
+    """files far larger than any buffer a reader might use (implementation against the statement; too large for the extracted model's
+    quadratic parser): written by write_syx_file in both formats, and text laid out by hand, then read back"""
+    import mido
+    sizes = [3000, 5461, 10922, 21844, 21845, 21846, 30000, 43690, 70000] + ([150000, 400000, 1000000] if out.tier == 'thorough' else [])
+    n = 0
+    for total in sizes:
+        for shape in ('one', 'many'):
+            if shape == 'one':
+                msgs = [mido.Message('sysex', data=[rng.randrange(128) for _ in range(total - 2)])]
+            else:
+                msgs, left = [], total
+                while left > 0:
+                    k = min(left, rng.choice([2, 3, 3, 10, 100, 1000]))
+                    msgs.append(mido.Message('sysex', data=[rng.randrange(128) for _ in range(max(0, k - 2))])); left -= max(2, k)
+            raw = b''.join(bytes(m.bytes()) for m in msgs)
+            files = []
+            for plaintext in (False, True):
+                path = os.path.join(SCRATCH, 'big_%d_%s_%d.syx' % (total, shape, plaintext))
+                try:
+                    mido.write_syx_file(path, msgs, plaintext=plaintext)
+                    files.append(('write_syx_file(plaintext=%r)' % plaintext, path))
+                except Exception as e:  # noqa: BLE001
+                    out.failures.append(('big-write-raises', 'write_syx_file(plaintext=%r) of %d message bytes (%d messages) raised %r' % (plaintext, len(raw), len(msgs), e),
+                                         {'component': 'big', 'total': total, 'shape': shape}))
+            for sep in (' ', '\n', '', ' \r\n', '\t '):
+                path = os.path.join(SCRATCH, 'bigt_%d_%s_%d.syx' % (total, shape, len(files)))
+                with open(path, 'wb') as f:
+                    f.write(sep.join('%02X' % b for b in raw).encode('ascii'))
+                files.append(('text with separator %r' % sep, path))
+            for label, path in files:
+                n += 1
+                try:
+                    back = mido.read_syx_file(path)
+                    if [m.bytes() for m in back] != [m.bytes() for m in msgs]:
+                        out.failures.append(('big-roundtrip', 'a file of %d message bytes in %d sysex messages (%s, %d bytes on disk) is read back as %d messages%s'
+                                             % (len(raw), len(msgs), label, os.path.getsize(path), len(back),
+                                                '' if len(back) != len(msgs) else ' with different content'), {'component': 'big', 'total': total, 'shape': shape, 'file': label}))
+                except Exception as e:  # noqa: BLE001
+                    out.failures.append(('big-read-raises', 'reading a valid file of %d message bytes in %d sysex messages (%s, %d bytes on disk) raised %r'
+                                         % (len(raw), len(msgs), label, os.path.getsize(path), e), {'component': 'big', 'total': total, 'shape': shape, 'file': label}))
+                os.remove(path)
+    out.components['big files (implementation against the statement)'] = {'cases': n, 'message_bytes': sizes}
+    out.evaluations += n
+
+
 def run(out):
     global SCRATCH
     rng = random.Random(out.seed)
@@ -158,12 +204,13 @@ def run(out):
         jobs = [(t, c) for t, _, c in jobs]
         for tag, rec in core.pmap(job, jobs):
             core.merge_into(out, rec, tag)
+        big_files(out, rng)
     finally:
         shutil.rmtree(SCRATCH, ignore_errors=True)
     out.rule = ('write_syx_file to a real file (binary and plain text) for %d message lists (sysex payloads 0..6000 bytes, long ones in both formats, interleaved non-sysex '
                 'messages, empty list): file bytes compared with the model, and read_syx_file(file) must return exactly the sysex messages; '
                 'read_syx_file on %d files: binary, text with random whitespace layouts (space, tab, CR, LF, VT, FF, FS..US, NEL, NBSP, none) and '
-                'either letter case, truncated / mixed content, malformed hex. Non-trivial: non-zero content; distinct by content.' % (len(wcases), len(rcases)))
+                'either letter case, truncated / mixed content, malformed hex; files of 3000 .. 70000 message bytes (thorough: up to 1000000), one sysex or many, written in both formats and laid out by hand with five separators, read back. Non-trivial: non-zero content; distinct by content.' % (len(wcases), len(rcases)))
     out.sample({'component': 'write', 'case': wcases[3][:30]})
     out.sample({'component': 'read', 'case': rcases[1][:40]})
     core.kernel_crosscheck(out, [(COMP_WRITE, c) for c in wcases[:60] if len(c) < 200] + [(COMP_READ, c) for c in rcases[:140] if len(c) < 300], 'C19')
